@@ -230,8 +230,8 @@ L2_RULE = ("MACRO LEVEL: generated multi-cache histories (30-120 operations + cl
            "(fresh value per execution or deterministic, Ok/Err, payload size, cache_if and invalidate_on verdicts), virtual clock, conditional and group invalidations, stats resets; after every "
            "operation: returned value, body executed?, predicate/check invocations, key listing (never-matching invalidate_with predicate) and stats_registry are compared with the wrapper model. ")
 
-prop("C01", ["l1", "l2"], "exploration",
-     L1_RULE + L2_RULE + "Non-trivial = a lookup of a stored key (value must be the last one stored for that key); distinct = distinct (configuration, key, hit-count class, store size).",
+prop("C01", ["l1", "l2", "key"], "exploration",
+     L1_RULE + L2_RULE + "KEY LEVEL (shared with C02): adversarial argument pairs on 29 signature shapes; a call served from another tuple's entry is reported here as 'a value stored for other arguments'. Non-trivial = a lookup of a stored key (value must be the last one stored for that key); distinct = distinct (configuration, key, hit-count class, store size).",
      COMMON_ASSUME, ("C01", "lookups_of_stored_key"))
 prop("C05", ["l1"], "exploration",
      L1_RULE + "Values: String, Vec<u8>, Vec<String>, Option<String>, Result<String,String>, (String,Vec<u32>), Box<String>, a user type with its own estimator; sizes around M/3, M/2, M-1, M, M+1, >M, with slack capacity. Sizes are measured by an independent footprint oracle. Non-trivial = a store under memory pressure; distinct = distinct (configuration, residents, order shape, size class).",
@@ -383,6 +383,11 @@ LEVEL_NOTE = ("Trusted: the specification model (harness/vmon/src/model.rs, writ
 NOT_CLAIMED = {}
 
 
+ALSO_REFUTES = {
+    "C01": [("C02", {"distinct-tuples-share-entry", "served-from-another-tuples-entry", "repeat-call-served-other-entry"})],
+}
+
+
 def main():
     if len(sys.argv) >= 2 and sys.argv[1] == "manifest":
         return write_manifest()
@@ -409,6 +414,16 @@ def main():
                 errors.append(f"{os.path.basename(outfile)}: exit {rc}: {tail[-400:]}")
     merged = merge_reports(files)
     reattribute(merged["violations"])
+    # one observation can refute two statements: a call served from another argument tuple's
+    # entry (C02) also "yields a value that was stored for other arguments" (C01)
+    for v in merged["violations"]:
+        for (src, kinds) in ALSO_REFUTES.get(pid, []):
+            parts = v["sig"].split("|")
+            if v.get("property") == src and parts[4] in kinds:
+                parts[0] = pid
+                v["also_refutes"] = src
+                v["property"] = pid
+                v["sig"] = "|".join(parts)
     known = load_known()
     os.makedirs(REPLAYS, exist_ok=True)
     for old in glob.glob(os.path.join(REPLAYS, f"{pid}-{seed}-*.json")):
